@@ -29,14 +29,23 @@ def bodyOf (j : Json) : BodyOut :=
 
 instance : Inhabited Prog := ⟨.body 0 .normal⟩
 
+/-- `{"pos":[ids], "kw":[[name, id]…], "fits":b}`; a bare number `n` (older corpus / replay files) is the call `cm(<n>, k=<n+1>)` -/
+def argsOf (j : Json) : CallArgs :=
+  match j.getNat? with
+  | .ok n => { pos := [n], kw := [(1, n + 1)] }
+  | _ => { pos := (jL (jF j "pos")).map jN, kw := (jL (jF j "kw")).map (fun p => (jN (jAt p 0), jN (jAt p 1))),
+           fits := if jIsNull (jF j "fits") then true else jB (jF j "fits") }
+
+def argsJ (a : CallArgs) : List Json := [jArr (a.pos.map jNat), jArr (a.kw.map (fun p => jArr [jNat p.1, jNat p.2]))]
+
 partial def progOf (j : Json) : Prog :=
   match jTag j with
-  | "with" => .withCm (genOf (jAt j 1)) (jN (jAt j 2)) (progOf (jAt j 3))
+  | "with" => .withCm (genOf (jAt j 1)) (argsOf (jAt j 2)) (progOf (jAt j 3))
   | "seq" => .seq (progOf (jAt j 1)) (progOf (jAt j 2))
   | _ => .body (jN (jAt j 1)) (bodyOf (jAt j 2))
 
 def evJ : Ev → Json
-  | .setup t a => jArr [jStr "setup", jNat t, jNat a]
+  | .setup t a => jArr ([jStr "setup", jNat t] ++ argsJ a)
   | .bind t v => jArr [jStr "bind", jNat t, jNat v]
   | .body n => jArr [jStr "body", jNat n]
   | .cleanup t => jArr [jStr "cleanup", jNat t]
@@ -49,6 +58,21 @@ def finJ : Final → Json
 
 def outJ (r : List Ev × Final) : Json := mkObj [("journal", jArr (r.1.map evJ)), ("final", finJ r.2)]
 
+def finalOf (j : Json) : Final := (bodyOf j).final
+
+def opOf (j : Json) : Op :=
+  match jTag j with
+  | "enter" => .enter (genOf (jAt j 1)) (argsOf (jAt j 2))
+  | _ => .exit (jN (jAt j 1)) (finalOf (jAt j 2))
+
+def opOutJ : OpOut → Json
+  | .entered v => jArr [jStr "entered", jNat v]
+  | .enterFailed e => finJ (.raised e)
+  | .exited f => finJ f
+  | .ignored => jArr [jStr "ignored"]
+
+def opsJ (l : List (List Ev × OpOut)) : Json := jArr (l.map (fun r => mkObj [("evs", jArr (r.1.map evJ)), ("out", opOutJ r.2)]))
+
 def modeOf (j : Json) : Mode := if jS j == "async" then .async else .sync
 
 def kindOf : String → FnKind
@@ -59,7 +83,9 @@ def wrapS : Wrap → String
 
 /-- cases:
     `{"kind":"prog","mode":…,"prog":P}` → model run, spec (null outside the documented form), the two guards;
-    `{"kind":"deco","mode":…,"fn":…,"hasName":b}` → decoration outcome, and whether the property demands acceptance -/
+    `{"kind":"deco","mode":…,"fn":…,"hasName":b}` → decoration outcome, and whether the property demands acceptance;
+    `{"kind":"hist","mode":…,"ops":[["enter",G,ARGS] | ["exit",i,BODYOUT]…]}` → per operation journal and outcome of the history
+    machine over one manager, and of the per-use try/finally specification (null outside the documented form) -/
 def handle (c : Json) : Json :=
   let m := modeOf (jF c "mode")
   if jS (jF c "kind") == "deco" then
@@ -68,6 +94,13 @@ def handle (c : Json) : Json :=
       | .rejected cls => jArr [jStr "rejected", jStr cls]
       | .manager w => jArr [jStr "manager", jStr (wrapS w)]
     mkObj [("model", d), ("spec", mkObj [("mustAccept", jBool (mustAccept m k)), ("via", jStr (wrapS (expectedWrap m)))])]
+  else if jS (jF c "kind") == "hist" then
+    let ops := (jL (jF c "ops")).map opOf
+    let ok := histOk m [] ops
+    -- quirk-freeness on its own (the other conjuncts of histOk are the documented form)
+    let doc := ops.all (fun op => match op with | .enter g a => g.docForm m && a.fits | .exit _ _ => true)
+    mkObj [("model", opsJ (runOps m [] ops).1), ("spec", if doc then opsJ (specOps [] ops) else Json.null),
+           ("docForm", jBool doc), ("quirkFree", jBool (ok || !doc))]
   else
     let p := progOf (jF c "prog")
     let doc := p.docForm m
